@@ -344,15 +344,17 @@ def analyse_method(run, pkg, K, m, attrs, ex):
                 key = f"K={K} pair ({ta},{tb})"
                 if misaligned:
                     continue
-                if undec:
-                    run.ob("R-SEL", fq, key, None, f"species pair ({ta},{tb}) lands in exactly {want}", undec, loc=fi.loc())
+                if undec or not const_keys_only:
+                    # a column written under a computed name (loop over column names) is not in the table of selectors: what it
+                    # selects is unknown, so "lands in no column" cannot be concluded
+                    run.ob("R-SEL", fq, key, None, f"species pair ({ta},{tb}) lands in exactly {want}", undec or "columns are also written under computed names", loc=fi.loc())
                 else:
                     ok = hit == [want]
                     run.ob("R-SEL", fq, key, ok, f"centre species {ta}, neighbour species {tb} is counted in exactly {want}",
                            f"selected columns: {hit}", witness=None if ok else f"type_i={ta}, type_j={tb} -> {hit or 'no column'}", loc=fi.loc(), sound=True)   # finite evaluation of every selector on this species pair
         # the same enumeration with UNSIGNED type ids (HOOMD / GSD frames carry uint32 ids; the readers hand them on as they
         # are): differences wrap modulo 2**32, so a selector built on |t_j - t_i| needs a signed operand
-        if not misaligned:
+        if not misaligned and const_keys_only:
             from .grlib import TV
             bad_u = []
             for ta in range(1, K + 1):
